@@ -185,21 +185,28 @@ Definition omap {A B} (f : A -> B) (o : option A) : option B :=
 Definition opt_pair_eqb (o : option (N * N)) (x : N * N) : bool :=
   match o with Some y => pair_eqb y x | None => false end.
 
-(** one call of [next] per emitted pair; one loop iteration per unit of fuel *)
+(** the [match (self.pending0, self.pending1)] of [next]: the pair taken and the two
+    streams afterwards *)
+Definition pick (a b : list (N * N)) : option ((N * N) * (list (N * N) * list (N * N))) :=
+  match a, b with
+  | x :: a', y :: b' => if pair_leb x y then Some (x, (a', b)) else Some (y, (a, b'))
+  | x :: a', [] => Some (x, (a', []))
+  | [], y :: b' => Some (y, ([], b'))
+  | [], [] => None
+  end.
+
+(** the output of the iterator: one loop iteration per unit of fuel *)
 Fixpoint merge_dedup_go (fuel : nat) (noloops : bool) (a b : list (N * N))
   (last : option (N * N)) : list (N * N) :=
   match fuel with
   | O => []
   | S f =>
-    let step x a' b' :=
+    match pick a b with
+    | None => []
+    | Some (x, (a', b')) =>
       if opt_pair_eqb last x then merge_dedup_go f noloops a' b' last
       else if noloops && (fst x =? snd x) then merge_dedup_go f noloops a' b' (Some x)
-      else x :: merge_dedup_go f noloops a' b' (Some x) in
-    match a, b with
-    | x :: a', y :: b' => if pair_leb x y then step x a' b else step y a b'
-    | x :: a', [] => step x a' []
-    | [], y :: b' => step y [] b'
-    | [], [] => []
+      else x :: merge_dedup_go f noloops a' b' (Some x)
     end
   end.
 
